@@ -27,18 +27,18 @@ def isQuantNat (c : Nat) : Bool := c = 42 || c = 43 || c = 45 || c = 63
 
 /-! ### shapes of `tokCls` -/
 theorem tokCls_cases (c : Nat) (r : List Nat) (cls : Cls) (r1 : List Nat) (h : tokCls (c :: r) = some (cls, r1)) :
-    (c = 37 ∧ ∃ cl, r = cl :: r1 ∧ cls = .esc cl ∧ cl ≠ 0 ∧ isDigit cl = false ∧ cl ≠ 98 ∧ cl ≠ 102) ∨
+    (c = 37 ∧ ∃ cl, r = cl :: r1 ∧ cls = .esc cl ∧ True ∧ isDigit cl = false ∧ cl ≠ 98 ∧ cl ≠ 102) ∨
     (c = 91 ∧ ∃ content, cls = .set content ∧ classEnd (91 :: r) = .ok (.set content, r1) ∧
-        setOK (setBody content) = true ∧ content.contains 0 = false) ∨
+        setOK (setBody content) = true ∧ True) ∨
     (c = 46 ∧ cls = .any ∧ r1 = r) ∨
-    (c ≠ 0 ∧ c ≠ 40 ∧ c ≠ 41 ∧ c ≠ 37 ∧ c ≠ 91 ∧ c ≠ 46 ∧ cls = .lit c ∧ r1 = r) := by
+    (True ∧ c ≠ 40 ∧ c ≠ 41 ∧ c ≠ 37 ∧ c ≠ 91 ∧ c ≠ 46 ∧ cls = .lit c ∧ r1 = r) := by
   unfold tokCls at h
-  by_cases h0 : c = 0 ∨ c = 40 ∨ c = 41
+  by_cases h0 : c = 40 ∨ c = 41
   · simp [h0] at h
   · simp only [h0, if_false] at h
-    have hc0 : c ≠ 0 := fun e => h0 (Or.inl e)
-    have h40 : c ≠ 40 := fun e => h0 (Or.inr (Or.inl e))
-    have h41 : c ≠ 41 := fun e => h0 (Or.inr (Or.inr e))
+    have hc0 : True := trivial
+    have h40 : c ≠ 40 := fun e => h0 (Or.inl e)
+    have h41 : c ≠ 41 := fun e => h0 (Or.inr e)
     by_cases h37 : c = 37
     · subst h37
       simp only [if_true] at h
@@ -46,15 +46,15 @@ theorem tokCls_cases (c : Nat) (r : List Nat) (cls : Cls) (r1 : List Nat) (h : t
       | nil => simp at h
       | cons cl r' =>
         simp only at h
-        by_cases hcl : cl = 0 ∨ isDigit cl = true ∨ cl = 98 ∨ cl = 102
+        by_cases hcl : isDigit cl = true ∨ cl = 98 ∨ cl = 102
         · simp [hcl] at h
         · simp only [hcl, if_false, Option.some.injEq, Prod.mk.injEq] at h
           obtain ⟨rfl, rfl⟩ := h
-          refine Or.inl ⟨rfl, cl, rfl, rfl, fun e => hcl (Or.inl e), ?_, fun e => hcl (Or.inr (Or.inr (Or.inl e))),
-            fun e => hcl (Or.inr (Or.inr (Or.inr e)))⟩
+          refine Or.inl ⟨rfl, cl, rfl, rfl, trivial, ?_, fun e => hcl (Or.inr (Or.inl e)),
+            fun e => hcl (Or.inr (Or.inr e))⟩
           cases hd : isDigit cl with
           | false => rfl
-          | true => exact absurd (Or.inr (Or.inl hd)) hcl
+          | true => exact absurd (Or.inl hd) hcl
     · simp only [h37, if_false] at h
       by_cases h91 : c = 91
       · subst h91
@@ -67,10 +67,10 @@ theorem tokCls_cases (c : Nat) (r : List Nat) (cls : Cls) (r1 : List Nat) (h : t
           rw [hce] at h
           cases cl with
           | set content =>
-            by_cases hg : setOK (setBody content) = true ∧ ¬ content.contains 0 = true
-            · simp only [hg, and_self, if_true, Option.some.injEq, Prod.mk.injEq] at h
+            by_cases hg : setOK (setBody content) = true
+            · simp only [hg, if_true, Option.some.injEq, Prod.mk.injEq] at h
               obtain ⟨rfl, rfl⟩ := h
-              exact Or.inr (Or.inl ⟨rfl, content, rfl, rfl, hg.1, by simpa using hg.2⟩)
+              exact Or.inr (Or.inl ⟨rfl, content, rfl, rfl, hg, trivial⟩)
             · simp only [hg, if_false] at h
               cases h
           | any => simp at h
